@@ -149,14 +149,15 @@ def native_detect(u, vals):
         ns.free()
 
 def run_resolve(u):
-    rep = Report(); N = 3; ks = u['keep_sorted']; pattern = u['pattern']
+    rep = Report(); ks = u['keep_sorted']; pattern = u['pattern']; N = 4 if pattern == 'interleaved' else 3
     label = "merge resolution %s keep_sorted=%d " % (pattern, ks)
     prover = Prover(t_inproc_ms=10000, use_external=False)
     L = build.layout()
     # concrete geometry that produces the overlap pattern; masses and velocities' magnitudes symbolic
     geo = {'chain': [(0.0, 0.0, 0.0, 1.0), (1.5, 0.0, 0.0, 1.0), (3.0, 0.0, 0.0, 1.0)],      # 0-1 and 1-2 overlap, 0-2 do not (x, y, z, r)
            'cluster': [(0.0, 0.0, 0.0, 1.0), (0.5, 0.0, 0.0, 1.0), (0.0, 0.5, 0.0, 1.0)],
-           'pair+bystander': [(0.0, 0.0, 0.0, 1.0), (10.0, 0.0, 0.0, 1.0), (0.5, 0.0, 0.0, 1.0)]}[pattern]
+           'pair+bystander': [(0.0, 0.0, 0.0, 1.0), (10.0, 0.0, 0.0, 1.0), (0.5, 0.0, 0.0, 1.0)],
+           'interleaved': [(0.0, 0.0, 0.0, 1.0), (20.0, 0.0, 0.0, 1.0), (20.5, 0.0, 0.0, 1.0), (0.5, 0.0, 0.0, 1.0)]}[pattern]      # pairs (0,3) and (1,2): interleaved indices
     def run(ctx):
         dom = Real(); I = new_interp(dom, ctx); I.concrete_env = False
         sim = Sim(I)
@@ -171,6 +172,7 @@ def run_resolve(u):
             # approaching: velocity = -s_i * position direction from the centroid (concrete directions), symbolic w component for momentum check
             w = dom.fresh('w%d' % i); U.append(w)
             cx = sum(g[0] for g in geo) / N; cy = sum(g[1] for g in geo) / N
+            if pattern == 'interleaved': cx = 0.25 if x < 10 else 20.25          # each pair approaches its own midpoint
             p.set('vx', dom.const(-(x - cx))); p.set('vy', dom.const(-(y - cy))); p.set('vz', w)
             p.set('last_collision', dom.const(-1.0))
         sim.set('t', dom.const(1.0))
@@ -187,22 +189,53 @@ def run_resolve(u):
         rep.paths += 1; rep.add_interp(I)
         ob = Obligations(rep, prover, label + "path%d " % rep.paths)
         pc = list(ctx.pc) + [b != 0 for b in dom.divs]
+        def on_sat(model, M=M, U=U):
+            ms = [float(model_value(model, m)) for m in M]; ws = [float(model_value(model, w)) for w in U]
+            ok, detail = native_resolve(u, geo, ms, ws)
+            return ok, 'C13:resolve:%s:keep_sorted%d' % (pattern, ks), detail, dict(unit=u, geo=[list(g) for g in geo], masses=ms, ws=ws, kind='resolve')
         n1 = sim.get('N')
         ms = [dom.z(sim.particle(j).get('m')) for j in range(n1)]
-        ob.prove("total mass preserved (identity in independent masses: nobody lost, duplicated or merged twice)", sum(ms, z3.RealVal(0)) == sum(M, z3.RealVal(0)), pc, axioms=dom.axioms, domain='REAL')
+        ob.prove("total mass preserved (identity in independent masses: nobody lost, duplicated or merged twice)", sum(ms, z3.RealVal(0)) == sum(M, z3.RealVal(0)), pc, axioms=dom.axioms, on_sat=on_sat, domain='REAL')
         for c, orig in (('vz', U),):
             p1 = sum((ms[j] * dom.z(sim.particle(j).get(c)) for j in range(n1)), z3.RealVal(0))
-            ob.prove("total momentum (%s) preserved" % c, p1 == sum((M[i] * orig[i] for i in range(N)), z3.RealVal(0)), pc, axioms=dom.axioms, domain='REAL')
-        expected = {'chain': (1, 2), 'cluster': (1, 1), 'pair+bystander': (2, 2)}[pattern]
-        ob.prove("N after resolution within [%d,%d] and every survivor has positive mass" % expected, z3.And(n1 >= expected[0], n1 <= expected[1], *[m > 0 for m in ms]), pc, axioms=dom.axioms, domain='REAL')
+            ob.prove("total momentum (%s) preserved" % c, p1 == sum((M[i] * orig[i] for i in range(N)), z3.RealVal(0)), pc, axioms=dom.axioms, on_sat=on_sat, domain='REAL')
+        expected = {'chain': (1, 2), 'cluster': (1, 1), 'pair+bystander': (2, 2), 'interleaved': (2, 2)}[pattern]
+        ob.prove("N after resolution within [%d,%d] and every survivor has positive mass" % expected, z3.And(n1 >= expected[0], n1 <= expected[1], *[m > 0 for m in ms]), pc, axioms=dom.axioms, on_sat=on_sat, domain='REAL')
         orders.add(tuple(str(x) for x in getattr(I, 'rand_draws', [])[:0]))
     rep.notes.append(label + "%d resolution orders (paths over the rand_r draws) explored" % rep.paths)
     return rep
+
+def native_resolve(u, geo, ms, ws):
+    """natively: the same overlap pattern with the model's masses; the shuffle is driven by rand_seed, so a range of seeds is
+    tried (every seed is a legitimate run of the real code)"""
+    N_ = nat(); L = N_.L; N = len(geo)
+    for seed in range(400):
+        ns = N_.create()
+        try:
+            for i in range(N): ns.add(m=1.0)
+            ns.set('collision', L.enumerators['REB_COLLISION_DIRECT']); ns.set('collision_resolve_keep_sorted', u['keep_sorted'])
+            ns.set('collision_resolve', ctypes.cast(N_.lib.reb_collision_resolve_merge, ctypes.c_void_p).value)
+            cx = sum(g[0] for g in geo) / N; cy = sum(g[1] for g in geo) / N
+            for i, (x, y, z, rr) in enumerate(geo):
+                p = ns.particle(i)
+                c0 = cx if u['pattern'] != 'interleaved' else (0.25 if x < 10 else 20.25)
+                for c_, v_ in (('x', x), ('y', y), ('z', z), ('r', rr), ('m', ms[i]), ('vx', -(x - c0)), ('vy', -(y - cy)), ('vz', ws[i]), ('last_collision', -1.0)): p.set(c_, v_)
+            ns.set('t', 1.0); ns.set('rand_seed', seed)
+            ns.call('reb_collision_search')
+            n1 = ns.get('N')
+            mt = sum(ns.particle(j).get('m') for j in range(n1)); pt = sum(ns.particle(j).get('m') * ns.particle(j).get('vz') for j in range(n1))
+            m0 = sum(ms); p0 = sum(a * b for a, b in zip(ms, ws))
+            if abs(mt - m0) > 1e-9 * abs(m0) or abs(pt - p0) > 1e-9 * (abs(p0) + sum(abs(a * b) for a, b in zip(ms, ws)) + 1e-300):
+                return True, "native merge resolution (%s, keep_sorted=%d, rand_seed=%d): total mass %r -> %r, momentum %r -> %r, N %d -> %d" % (u['pattern'], u['keep_sorted'], seed, m0, mt, p0, pt, N, n1)
+        finally:
+            ns.free()
+    return False, "no shuffle among 400 seeds violates conservation natively"
 
 def worker(u):
     return run_detect(u) if u['what'] == 'detect' else run_resolve(u)
 
 def replay(data):
+    if data.get('kind') == 'resolve': return native_resolve(data['unit'], [tuple(g) for g in data['geo']], data['masses'], data['ws'])
     return native_detect(data['unit'], data['vals'])
 
 def main():
@@ -211,7 +244,7 @@ def main():
     build.module(); build.layout(); build.build_native()
     us = [dict(what='detect', mode='DIRECT', N=2), dict(what='detect', mode='LINE', N=2)]
     if tier == 'thorough': us += [dict(what='detect', mode='DIRECT', N=3)]
-    for pat in ('chain', 'pair+bystander') + (('cluster',) if tier == 'thorough' else ()):
+    for pat in ('chain', 'pair+bystander', 'interleaved') + (('cluster',) if tier == 'thorough' else ()):
         for ks in (0, 1): us.append(dict(what='resolve', pattern=pat, keep_sorted=ks))
     rep = run_units(us, worker)
     code = finish(PID, tier, rep, t0,
